@@ -217,6 +217,9 @@ def check_forest(Cache, rootop, tmp, BFO, SBO, SO):
             return 'record not registered under its key'
     if len(c._files) + len(c._subbuilds) != len(live):
         return 'setup-failed or foreign records registered'
+    if any(v is None for v in list(c._files.values()) + list(c._norm_cased_files.values())
+           + list(c._subbuilds.values())):
+        return 'a reuse left a claim in progress (None entry)'
     # a second reuse of the same tree must be rejected and change nothing (C08.D5/D6)
     before = (dict(c._files), dict(c._subbuilds))
     if live:
